@@ -7,8 +7,10 @@
   hypothesis whatsoever on documents, filters, updates, projections, sorts, array filters), given
   only that the `$jsonSchema` evaluator parameter reports no panic (`SchNoPanic sch`; the driver's
   evaluator `schemaUnmodelled` satisfies it).  "Never hangs" is witnessed by Lean accepting the
-  definitions: there is no `partial` in `Lungo/Model` outside the JSON glue; `resolve` is the only
-  fuelled function and §7 proves its fuel is never what decides the result.  "Never leaves the
+  definitions: there is no `partial` in `Lungo/Model` outside the JSON glue (Model/Json.lean).  Fuelled
+  functions: `resolve` — §7 proves its fuel is never what decides the result — and the three digit loops of
+  `parseD128FromBigInt` (Model/Arith.lean, the mongo-driver's Decimal128 normalisation; their fuel
+  `20000 + log2|bi| + |exp|` is stated there and NOT proved sufficient here).  "Never leaves the
   engine unable to serve the next call" is §6 (sequential level; the concurrent reading is C16).
 
   Errors that a call stores INSIDE a successful result (`TResult.error` of Insert / Bulk, the
